@@ -518,9 +518,11 @@ class DatasetProcessor:
 
         self.process_assigned_reads(sample, saves_file)
         if not self.args.read_assignments and not self.args.keep_tmp:
-            for f in glob.glob(saves_file + "_*"):
+            # remove the locks first: an interrupted clean-up must not leave locks that refer to deleted files
+            for f in sorted(glob.glob(saves_file + "_*"),
+                            key=lambda x: (not x.endswith("_lock"), not x.endswith("_collected"))):
                 os.remove(f)
-            for f in glob.glob(sample.read_group_file + "*"):
+            for f in sorted(glob.glob(sample.read_group_file + "*"), key=lambda x: not x.endswith("_lock")):
                 os.remove(f)
         logger.info("Processed experiment " + sample.prefix)
 
